@@ -216,10 +216,20 @@ class Ctx(object):
         v = self.fresh_bv(vname, w)
         if n < (1 << w):
             self.solver.add(z3.ULT(v, bvv(n, w)))
-        for k in range(n - 1):
-            if self.branch(v == k):
-                return k
-        return n - 1
+        return self.split_value(v, w, 0, n - 1)
+
+    def split_value(self, e, w, lo=0, hi=None):
+        """concretise bit-vector e by balanced binary case-splitting (each split is a branch
+        decided by z3, so infeasible halves are pruned and the subtree can be sharded)"""
+        if hi is None:
+            hi = (1 << w) - 1
+        while lo < hi:
+            mid = (lo + hi) // 2
+            if self.branch(z3.ULE(e, bvv(mid, w))):
+                hi = mid
+            else:
+                lo = mid + 1
+        return lo
 
     def feasible(self, cond):
         if self.concrete is not None:
@@ -513,19 +523,14 @@ class SymInt(object):
 
     # ---- concretisation -------------------------------------------------------------------
     def concretize(self, limit=1 << 16):
-        """Case split on the value, smallest feasible value first (deterministic replay)."""
+        """Case split on the value (balanced binary search over the value range; deterministic)."""
         c = Ctx.cur
-        s = z3.simplify(self.e)
-        if z3.is_bv_value(s):
-            return s.as_long()
-        n = 0
-        while True:
-            v = c.min_value(self.e, self.w)
-            if c.branch(self.e == bvv(v, self.w)):
-                return v
-            n += 1
-            if n > limit:
-                raise EngineLimit('concretisation over too many values')
+        sv = z3.simplify(self.e)
+        if z3.is_bv_value(sv):
+            return sv.as_long()
+        if c.concrete is not None:
+            raise EngineLimit('symbolic value in concrete replay')
+        return c.split_value(self.e, self.w)
 
     def __index__(self):
         return self.concretize()
